@@ -266,6 +266,27 @@ def r_qeq(prog, R):
                 r.viol("0x20-not-weakened", f.name, f.loc(gi["call"]["ln"]), "with 0x20 on UDP the case-insensitive comparison can still decide the match")
             else:
                 r.ok("0x20-not-weakened", f.loc(gi["call"]["ln"]))
+    # the case-insensitive arm is entered only over an edge that says "0x20 is off" or "this query uses TCP": any other way in (an extra
+    # conjunct on the case-sensitive arm) lets a wrong-case reply match while 0x20 is on over UDP
+    safe = []
+    for bid in body:
+        blk = f.blocks[bid]
+        br = f.branch(blk)
+        if not br or br[1] == br[2]:
+            continue
+        for pol, tgt in ((True, br[1]), (False, br[2])):
+            for c3, p3 in atoms(br[0], pol):
+                if (not p3) and is_flag_test(c3, lambda x: is_field(x, "flags", "ares_channeldata"), "ARES_FLAG_DNS0x20"):
+                    safe.append((blk.id, tgt))
+                if p3 and is_field(strip(c3), "using_tcp", "ares_query"):
+                    safe.append((blk.id, tgt))
+    for gi in ig:
+        pred = reach_avoiding(f, body_entry, safe + [(x, header) for x in body])
+        k = "case-insensitive only when 0x20 is off or over TCP"
+        if gi["block"].id in pred or gi["block"].id == body_entry:
+            r.viol(k, f.name, f.loc(gi["call"]["ln"]), "the case-insensitive name comparison can be reached although 0x20 randomisation is on and the query went over UDP (the case-sensitive arm has a further condition): a forged reply with the wrong letter case matches", trail=trail_lines(f, trail_to(pred, gi["block"].id, body_entry)) if gi["block"].id in pred else None)
+        else:
+            r.ok(k, f.loc(gi["call"]["ln"]))
     for gi in ig:
         # case-insensitive arm reached with 0x20&&!tcp both true?  its block must not be dominated by both facts
         facts = mf.cond_facts_at(gi["block"], 0)
@@ -331,6 +352,29 @@ def r_src(prog, R):
         r.ok("family-compared", e.loc(e.ln))
     else:
         r.viol("family-compared", e.name, e.loc(e.ln), "address families are not compared")
+    # a match is reported only for equal address families, from a comparison of whole address members
+    mfe = MustFacts(e, track_calls=False)
+    for rb, ri, rel in e.returns():
+        if name_of_const(rel.get("e")) == "ARES_FALSE":
+            continue
+        same = False
+        for c3, p3 in mfe.cond_facts_at(rb, ri):
+            op3, l3, r3 = norm_cmp(c3, p3)
+            if op3 == "==" and r3 is not None and {render(strip(l3)), render(strip(r3))} == {"sa->sa_family", "aa->family"}:
+                same = True
+        k = "match only for equal families (%s)" % (render(rel.get("e"))[:30])
+        if same:
+            r.ok(k, e.loc(rel))
+        else:
+            r.viol(k, e.name, e.loc(rel), "ares_sockaddr_addr_eq can report a match ('%s') on a path where the address families were not found equal: an address of another family that happens to share some bytes with the server's (e.g. an IPv6 source whose last 32 bits equal the server's IPv4 address) passes the source filter" % render(rel.get("e"))[:60])
+    for _, _, el in e.elements():
+        if el["k"] == "asg" and is_var(strip(el["e"]["l"])) and strip(el["e"]["l"])["n"] in ("addr1", "addr2"):
+            rr = strip(el["e"].get("r"))
+            k = "compared address %s is a whole member" % strip(el["e"]["l"])["n"]
+            if rr is not None and rr.get("k") == "un" and rr["op"] == "&":
+                r.ok(k, e.loc(el), nontrivial=False)
+            else:
+                r.viol(k, e.name, e.loc(el), "the address handed to memcmp is '%s', not the address member itself: only part of the address is compared" % render(rr))
     mc = e.calls_to("memcmp")
     r.require(len(mc) >= 2, "ares_sockaddr_addr_eq: expected memcmp for v4 and v6")
     want = {4: "addr4", 16: "addr6"}
